@@ -174,13 +174,26 @@ func EngineIDs() []string {
 // Exec runs one index of an engine on a fresh search tape.
 func Exec(e *Engine, tier string, seed int64, index int, arm string) *RunCtx {
 	rc := &RunCtx{Prop: e.ID, Tier: tier, Seed: seed, Index: index, Arm: arm, T: NewTape(seed, e.ID, index)}
-	e.Run(rc)
+	runGuarded(e, rc)
 	return rc
 }
 
 // ExecReplay runs an engine from a recorded tape.
 func ExecReplay(e *Engine, tier string, seed int64, index int, arm string, tape []uint64, blob []byte) *RunCtx {
 	rc := &RunCtx{Prop: e.ID, Tier: tier, Seed: seed, Index: index, Arm: arm, T: ReplayTape(tape), ReplayBlob: blob}
-	e.Run(rc)
+	runGuarded(e, rc)
 	return rc
+}
+
+// runGuarded executes one engine run. A run in which the allocation guard of a StepCounter ended a generated workload
+// is discarded whatever the engine concluded: the guard reads a process-wide counter, so where it strikes is not
+// decided by the tape, and a comparison between a guarded and an unguarded execution of the same workload means nothing.
+func runGuarded(e *Engine, rc *RunCtx) {
+	before := AllocTrips
+	e.Run(rc)
+	if AllocTrips != before {
+		rc.Viol, rc.Others = nil, nil
+		rc.Fatal = false
+		rc.Discard = "workload-allocates-too-much"
+	}
 }
